@@ -161,7 +161,8 @@ def c10_run(ctx):
 
 CHECK = {
     "lean_modules": ["P3R.Props.C10", "P3R.Props.C10Full", "P3R.Props.C11Sched", "P3R.Props.C10Lanes", "P3R.Props.C10Gen", "P3R.Witness.C04Gen",
-                     "P3R.Props.EndToEnd", "P3R.Props.EndToEndReach", "P3R.Witness.EndToEnd"],
+                     "P3R.Props.EndToEnd", "P3R.Props.EndToEndReach", "P3R.Witness.EndToEnd",
+                     "P3R.Props.C04LateFresh", "P3R.Witness.C04LateFresh"],
     "lean_exes": ["p3r_driver_c11"],
     "theorems": ["P3R.C10.record_row_add", "P3R.C10.record_row_mul", "P3R.C10.record_row_muladd", "P3R.C10.record_row_bool",
                  "P3R.C10.honest_bus_balanced",
@@ -193,7 +194,10 @@ CHECK = {
                  "P3R.E2EN.ReachablePrim.NInv", "P3R.E2EN.ReachablePrim.primOk",
                  "P3R.E2E.e2e_completeness_reachable", "P3R.E2E.e2e_roundtrip_reachable",
                  "P3R.Witness.EndToEnd.completeness_reachable_applies", "P3R.Witness.EndToEnd.guards_from_reachability",
-                 "P3R.Witness.EndToEnd.gen_applies"],
+                 "P3R.Witness.EndToEnd.gen_applies",
+                 # Props/C04LateFresh: the round trip without hnoskip — ReachablePrim b is the only hypothesis on the program (compile_lateFresh
+                 # discharges the lateFresh hypothesis of C04NoSkip's e2e_roundtrip_reachable_partial)
+                 "P3R.C04L.compile_lateFresh", "P3R.C04L.e2e_roundtrip_reachable'", "P3R.Witness.C04LateFresh.roundtrip_applies"],
     "run": c10_run,
     "trusted_base": ["STARK completeness: a trace satisfying all row constraints with a balanced bus is provable (also exercised for real by every run)"],
     "assumptions": ["generated programs: BabyBear D=1 circuits of primitive ops and hints (the Lean completeness theorem run_honest_accepted_gen covers every extension degree D, given power-basis independence CoeffIndep and a coefficient map of the extension field); the scheduled/packed ALU layout: bus preservation is proved over the Lean schedule model (C11.schedule_preserves_bus, model tied to the real AluAir by C11's run), the main-trace layout (intermediate accumulators) is tied by C11's scheduled-trace oracle; END TO END (Props/EndToEnd, e2e_completeness / _gen): from the builder program — hypotheses ReachablePrim b (the decidable runner-side guards pubOk / primOk / pubFull of e2e_completeness are derived from reachability in Props/EndToEndReach: e2e_completeness_reachable), compile b = ok c, genPrep c = some p, and the hypotheses of C02.run_total_on_satisfying_inputs on the assignment (every compiled op holds, RunnerWrites incl. a non-zero a operand of every Mul row, hints agree, the table holds exactly the inputs); hcreated / hwf / hchain / hpub of run_honest_accepted are derived"],
